@@ -1,7 +1,11 @@
 """Per-property level claims (text used in MANIFEST.json)."""
-from vlib.mkmanifest import claim
-
 NA = {}
+CHECKS = {}  # property id -> (design section, text of the level claim)
+
+
+def claim(pid, design_ref, text):
+    CHECKS[pid] = (design_ref, text)
+
 
 claim("C07", "DESIGN.md 5/C07",
       "considerPEL / considerPELIfSeverityMatches / isHidden / isServiceable are executed symbolically for all 256 "
